@@ -781,7 +781,10 @@ Theorem build_tree_render rfc pvs :
   wf_set rfc pvs = true ->
   build_tree rfc pvs = Ok (render rfc (trie_of (live_paths pvs))).
 Proof.
-  unfold wf_set. rewrite !andb_true_iff. intros [[Hnorm Hdfs] Hwf].
+  unfold wf_set. destruct (live_paths pvs) as [|p0 lp0] eqn:Elp.
+  { intros _. unfold build_tree. rewrite add_all_live. fold (live_paths pvs). rewrite Elp. reflexivity. }
+  rewrite <- Elp. clear Elp p0 lp0.
+  rewrite !andb_true_iff. intros [[Hnorm Hdfs] Hwf].
   apply paths_eqb_eq in Hdfs.
   unfold build_tree. rewrite add_all_live. fold (live_paths pvs). rewrite <- Hdfs at 1.
   rewrite (build_render rfc (schema_of (live_paths pvs))); [reflexivity | exact Hwf|].
